@@ -120,7 +120,7 @@ cpdef tuple extract_time_components(object dt):
     return (dt.hour, dt.minute, dt.weekday())
 
 
-cpdef float calculate_daily_hours(list intervals):
+cpdef double calculate_daily_hours(list intervals):
     """
     Calculate total working hours from interval list.
 
@@ -152,4 +152,5 @@ cpdef float calculate_daily_hours(list intervals):
 
         total_minutes += (end_minutes - start_minutes)
 
-    return <float>total_minutes / 60.0
+    # double precision, like the pure-Python fallback (a C float loses digits: 8.333333015)
+    return <double>total_minutes / 60.0
